@@ -373,6 +373,63 @@ def check_constructors(ctx, nts):
             ctx.violation(rule, nary, 'nary returns %s' % [unparse(r.value) for r in rets], 'expected NaryExpr(A, B, C, op)', nary.node.lineno, clause='b')
 
 
+def check_nary_forms(ctx):
+    """the four ways to call an n-ary selector end in NaryExpr(A, positional options, keyword
+    options, op): a single list / tuple -> positional; a single dict -> mapping; several
+    positional arguments -> positional; keyword arguments -> mapping with ascii-encoded keys;
+    both or neither -> rejected"""
+    repo = ctx.repo
+    rule = 'R9-nary-forms'
+    nary = None
+    for f_ in repo.functions.values():
+        if f_.module == 'deferred' and f_.qual.startswith(INSTALLER + '.') and f_.qual.count('.') == 1 and any(
+                isinstance(r_, ast.Return) and isinstance(r_.value, ast.Call) and call_name(r_.value) == 'NaryExpr' for r_ in ast.walk(f_.node)):
+            nary = f_
+    if nary is None:
+        ctx.undecided(rule, ('bisturi/deferred.py', INSTALLER), 'n-ary constructor', 'not found')
+        return
+    a = nary.node.args
+    A = a.args[0].arg
+    B = a.vararg.arg if a.vararg else None
+    Cn = a.kwarg.arg if a.kwarg else None
+    if B is None or Cn is None:
+        ctx.violation(rule, nary, 'nary(%s)' % unparse(a), 'the selector must accept (subject, *positional options, **keyword options)', nary.node.lineno)
+        return
+    w = repo.walker(max_paths=ctx.max_paths)
+    seen = {}
+    from ..expr import conj, negate
+    for p in w.paths(nary.node):
+        gt = set()
+        for g_, pol_ in p.guards:
+            for c_ in conj(g_ if pol_ else negate(g_)):
+                gt.add(canon(c_))
+        r = p.ret()
+        if p.raises() or r is None or call_name(r) != 'NaryExpr':
+            continue
+        args = [canon(x) for x in r.args]
+        single = ('(len(%s) + -1 == 0)' % B) in gt or ('(len(%s) == 1)' % B) in gt
+        if ('not %s' % Cn) in gt and single and ('isinstance(%s[0], dict)' % B) in gt:
+            seen['dict'] = args == [A, '[]', '%s[0]' % B, 'op']
+        elif ('not %s' % Cn) in gt and single and ('isinstance(%s[0], (list, tuple,))' % B) in gt:
+            seen['list'] = args == [A, '%s[0]' % B, '{}', 'op']
+        elif Cn in gt:
+            seen['keyword'] = args[0] == A and args[1] == B and args[3] == 'op' and '_encode_to_ascii_or_fail' in args[2] and ('%s.items()' % Cn) in args[2]
+        elif ('not %s' % Cn) in gt and not single:
+            seen['positional'] = args == [A, B, Cn, 'op']
+    want = ('dict', 'list', 'keyword', 'positional')
+    bad = [k for k in want if seen.get(k) is not True]
+    if not bad:
+        ctx.holds(rule, nary, 'nary forms: single dict -> mapping, single list/tuple -> positional, *args -> positional, **kwargs -> mapping (ascii keys)', 'all four call forms build NaryExpr(subject, options, mapping, op)', nary.node.lineno)
+    else:
+        ctx.violation(rule, nary, 'nary forms %s' % {k: seen.get(k) for k in want}, 'the call form(s) %s do not build NaryExpr(subject, positional options, keyword options, op) from what the caller wrote' % bad, nary.node.lineno)
+    # both / neither rejected: asserts at entry and exit
+    asserts = [canon(n.test) for n in ast.walk(nary.node) if isinstance(n, ast.Assert)]
+    if any(t == '(%s or %s)' % (B, Cn) for t in asserts) and any(t in ('(not %s or not %s)' % (B, Cn), 'not (%s and %s)' % (B, Cn)) for t in asserts):
+        ctx.holds(rule, nary, 'assert B or C; assert not (B and C)', 'exactly one of positional / keyword options', nary.node.lineno)
+    else:
+        ctx.violation(rule, nary, 'asserts %s' % asserts, 'a selector called with no options, or with both positional and keyword options, must be rejected', nary.node.lineno)
+
+
 def check_compile_expr(ctx, nts):
     repo = ctx.repo
     rule = 'R9-postfix'
@@ -613,6 +670,7 @@ def check(ctx):
     nts = namedtuple_fields(repo.modules['deferred']['tree'])
     check_tables(ctx)
     check_constructors(ctx, nts)
+    check_nary_forms(ctx)
     check_compile_expr(ctx, nts)
     check_exec(ctx)
     check_selectors(ctx)
